@@ -178,14 +178,14 @@ def run_inproc(E, spec, R, rng):
             words = case['sentences'][i][0]
             if kinds[i] == 'empty':
                 R.count('failure:own-placeholder-only')
-                if not is_placeholder(res[i]):
+                if not is_placeholder(res[i], case['_doc'][i]):
                     viol(E, 'batch:empty-sentence', f'zero-token sentence {i} did not yield the failure placeholder', wit)
                 continue
             if len(words) > cfg['max_length']:
                 R.count('failure:own-placeholder-only')
                 if not is_placeholder(res[i]):
                     viol(E, 'batch:failure-leak', f'over-long sentence {i} did not yield exactly its failure placeholder', wit)
-            if is_placeholder(res[i]) and len(words) <= cfg['max_length'] and len(words) >= 1:
+            if is_placeholder(res[i], case['_doc'][i]) and len(words) <= cfg['max_length'] and len(words) >= 1:
                 # a sentence that is not too long may fail only if it has no derivation or ran out of steps
                 hi = sum(1 for j in range(i) if len(case['sentences'][j][0]) <= cfg['max_length'])
                 pops = out['history'][hi][0][0] if hi < len(out['history']) else cfg['max_step']
@@ -216,7 +216,7 @@ def run_inproc(E, spec, R, rng):
                 viol(E, 'batch:history-dependent',
                      f'sentence {i} ({kinds[i]}) gives a different result inside the batch (after {i} earlier sentences) than parsed alone: '
                      f'scores {[float(s.score) for s in res[i]][:3]} vs {[float(s.score) for s in alone["results"][0]][:3]}', dict(wit, sentence=i))
-            if case.get('_doc') and not is_placeholder(res[i]):
+            if case.get('_doc') and not is_placeholder(res[i], case['_doc'][i]):
                 if any(a is not b for a, b in zip(res[i][0].tree.tokens, case['_doc'][i])):
                     viol(E, 'batch:misaligned', f'result {i} does not carry the token objects of sentence {i}', wit)
         histories += 1
